@@ -104,13 +104,15 @@ def run_unit(u, tier='quick', mutant=None, tag=''):
         if nm not in vac_failed and not res.tool_errors:
             out.reasons.append('vacuity probe %s was NOT rejected: the precondition of that function is contradictory' % nm)
     out.vac_ok = len(vac_failed)
-    if res.tool_errors:
+    if out.failed:
+        # a genuinely failed obligation is reported even if another query of the unit hit a tool limit
+        out.status = 'violation'
+        out.reasons.extend(res.tool_errors)
+    elif res.tool_errors:
         out.status = 'undecided'
         out.reasons.extend(res.tool_errors)
     elif out.reasons:
         out.status = 'undecided'
-    elif out.failed:
-        out.status = 'violation'
     else:
         # all non-vac functions must have succeeded
         bad = [f for f in res.functions if not f['success'] and not f['function'].split('::')[-1].startswith('vac__')]
